@@ -126,6 +126,7 @@ def nodeOp (n : RxPath.Node) (w : List String) : RxPath.Node × String :=
 returns a message returns the one that was waiting, and only to an exchange of the session that
 message addresses (peer and session id) with its exchange id; `prevRx` = slot content before the op -/
 def nodeOracle (prevSnap : ISnap) (prevRx : String) (w : List String) (res : String) : Option String :=
+  if res = "panic" then some s!"the node panicked in `{w.getD 0 ""}`" else
   if w.getD 0 "" = "recv" && res = "dlv" then
     match prevRx.splitOn "/" with
     | [p, sd, _, x] =>
@@ -445,7 +446,8 @@ def step (st : St) (line : String) : St × String :=
             -- the clause ends when the message leaves the slot, or the owner sends / is dropped / loses its session
             let op := w.getD 0 ""
             let sameU := (w.getD 1 "").toNat? = some u
-            if irx != m || (sameU && (op = "drop" || op = "send" || op = "rm")) then none else some (u, i, m)
+            if irx != m || (sameU && (op = "drop" || op = "send" || op = "rm")) || ((parseSnap isnap).sess u).isNone then none
+            else some (u, i, m)
           | none => none
       let st' := { st with node := some nd', nodePrev := (parseSnap isnap, irx), nodeAcc := acc' }
       match (nodeOracle st.nodePrev.1 st.nodePrev.2 w ires).orElse (fun _ => nodeOracle2 st.nodeAcc st.nodePrev.2 w ires) with
